@@ -14,7 +14,7 @@ TRUSTED = [
 ]
 RULE = ("inputs: exhaustive token-class sequences (one representative per lexical class incl. error classes), "
         "random token soups, grammar-derived sentences rendered spaced/tight/messy, their token-level mutations, "
-        "byte/non-ASCII noise insertions, nested #ifdef arrangements, bracket/statement/directive nesting at boundary depths "
+        "byte/non-ASCII noise insertions, special characters (BOM, zero-width / no-break spaces, line separators, FF, NUL) at the text's edges, nested #ifdef arrangements, bracket/statement/directive nesting at boundary depths "
         "(2^k-1, 2^k, 2^k+1 up to 513 quick / 1025 thorough, each followed by text that must survive), corpus files and corpus prefixes; "
         "a case is non-trivial if its text is non-empty and distinct from all others in its stream")
 FINISH = dict(level="proof", trusted_base=TRUSTED, rule=RULE)
@@ -45,6 +45,17 @@ def inputs(ck):
     streams["noise"] = noisy
     streams["prep"] = [gen.prep_nests(rng, rng.choice([1, 2, 3, 4])) + rng.choice(["", "class Z;", "#ifdef Q\nclass W"])
                        for _ in range(300 if quick else 30000)]
+    # characters that tools like to treat specially (byte order mark, zero-width and no-break spaces, Unicode line separators,
+    # form feed, NUL, DEL), alone and doubled, at the very beginning, after the first token, and at the very end of a text
+    specials = ["\ufeff", "\u200b", "\u00a0", "\u2028", "\u2029", "\u0085", "\x0c", "\x00", "\x7f", "\ufffe", "\U000e0001"]
+    edge = []
+    bases = ["", "class A;", "// c\nclass A;\n", "#ifndef G\n#define G\ndef a : B<1>;\n#endif\n", "def x { string s = \"a\"; }"] + sents[:(10 if quick else 200)]
+    for b in bases:
+        sp = b.find(" ") if " " in b else len(b)
+        for c in specials:
+            for cc in (c, c + c):
+                edge += [cc + b, b + cc, b[:sp] + cc + b[sp:], cc + b + cc]
+    streams["special_edges"] = edge
     streams["nesting"] = gen.deep_nests(rng, quick)
     files = gen.corpus_files()
     streams["corpus"] = [t for _, t in files]
